@@ -102,3 +102,24 @@ theorem C13_dims (s : Sps) :
 
 #print axioms C13_dims
 end Sps
+
+namespace Sps
+/-! ### the remaining helper values (C13) -/
+def picWidthInMbs (s : Sps) : Nat := s.picWidthInMbsMinus1 + 1
+def picHeightInMapUnits (s : Sps) : Nat := s.picHeightInMapUnitsMinus1 + 1
+/-- `saturating_mul` -/
+def picSizeInMapUnits (s : Sps) : Nat := min (picWidthInMbs s * picHeightInMapUnits s) (U32 - 1)
+
+/-- `fps()` as the exact pair (time_scale, num_units_in_tick); the value is time_scale / (2 · num_units_in_tick) -/
+def fpsOf (s : Sps) : Option (Nat × Nat) :=
+  match s.vui with
+  | none => none
+  | some v => match v.timingInfo with
+    | none => none
+    | some t => some (t.timeScale, t.numUnitsInTick)
+
+def hexDigitU (n : Nat) : Char := if n < 10 then Char.ofNat (48 + n) else Char.ofNat (55 + n)
+def hex2U (n : Nat) : String := String.ofList [hexDigitU (n / 16 % 16), hexDigitU (n % 16)]
+/-- RFC 6381 codec string: `avc1.` followed by profile_idc, constraint flags and level_idc in hex -/
+def rfc6381 (s : Sps) : String := "avc1." ++ hex2U s.profileIdc ++ hex2U s.constraintFlags ++ hex2U s.levelIdc
+end Sps
